@@ -54,6 +54,92 @@ def install_int_shims():
     _note('Fixed.__bool__/Guarded.__bool__ wrapped as bool(original(self))')
 
 
+class KeyStr(str):
+    "result of the real __str__ run on a proxy value: the text is a placeholder, `key` the (symbolic) numbers printed"
+    def __new__(cls, key):
+        o = str.__new__(cls, '<v>')
+        o.key = key
+        return o
+
+    def __radd__(self, other):
+        return KeyStr(('prefix:' + str(other),) + self.key)
+
+
+class FmtProxy(str):
+    "stands in for the class's display format while its __str__ runs: `fmt % numbers` keeps the numbers"
+    def __mod__(self, args):
+        args = args if isinstance(args, tuple) else (args,)
+        return KeyStr(('fmt:' + str.__str__(self),) + args)
+
+
+def _sym_str(x):
+    if isinstance(x, (int, SymInt)) and not isinstance(x, bool):
+        return KeyStr(('int', x))
+    return str(x)
+
+
+class LazyStr(str):
+    """what str(value) returns in count mode.  As text (log messages) it is the placeholder '<v>'.  When the code under
+    analysis compares or hashes it (e.g. uses str(value) as a dictionary key) the REAL __str__ is run on the proxy
+    value with only the final `format % numbers` step kept symbolic, and two strings are equal exactly when they were
+    produced by the same format from equal numbers (the display format is injective in its arguments: C14's laws)."""
+    def __new__(cls, value):
+        o = str.__new__(cls, '<v>')
+        o.value = value
+        o._key = None
+        return o
+
+    def key(self):
+        if self._key is None:
+            v = self.value
+            cls = type(v)
+            orig = ORIG_STR[cls]
+            mod = sys.modules[cls.__module__]
+            attr = '_dfmt' if cls.__name__ == 'Rational' else '_%s__dfmt' % cls.__name__
+            fmt = getattr(cls, attr)
+            had_str = 'str' in mod.__dict__
+            setattr(cls, attr, FmtProxy(fmt))
+            mod.str = _sym_str
+            try:
+                r = orig(v)
+            finally:
+                setattr(cls, attr, fmt)
+                if not had_str:
+                    del mod.str
+            if not isinstance(r, KeyStr):
+                raise core.HarnessError('str(value) compared, but the real __str__ did not go through the display format: %r' % (r,))
+            self._key = r.key
+        return self._key
+
+    def __hash__(self):
+        return 0x5EED
+
+    def __eq__(self, other):
+        if not isinstance(other, LazyStr):
+            if isinstance(other, str):
+                raise core.HarnessError('str(value) compared with a concrete string: digits are not modelled in count mode')
+            return NotImplemented
+        a, b = self.key(), other.key()
+        if len(a) != len(b) or a[0] != b[0]:
+            return False            # '-' + text against text, or different formats: different texts
+        for x, y in zip(a[1:], b[1:]):
+            if isinstance(x, str) or isinstance(y, str):
+                if x != y:
+                    return False
+                continue
+            if not (x == y):
+                return False
+        return True
+
+    def __ne__(self, other):
+        r = self.__eq__(other)
+        return r if r is NotImplemented else not r
+
+    def _nocmp(self, other):
+        raise core.HarnessError('str(value) ordered against another string: not modelled in count mode')
+    __lt__ = __le__ = __gt__ = __ge__ = _nocmp
+
+
 def install_str_placeholder():
     "count mode: formatting is not the subject; log messages embed values through %s"
     import droop.values.fixed as fm
@@ -61,10 +147,14 @@ def install_str_placeholder():
     import droop.values.rational as rm
     for cls in (fm.Fixed, gm.Guarded, rm.Rational):
         ORIG_STR.setdefault(cls, cls.__dict__['__str__'])
-    fm.Fixed.__str__ = lambda self: '<v>'
-    gm.Guarded.__str__ = lambda self: '<v>'
-    rm.Rational.__str__ = lambda self: '<v>'
-    _note('__str__ of Fixed/Guarded/Rational -> placeholder (count mode only)')
+
+    def placeholder(self):
+        return LazyStr(self)
+    fm.Fixed.__str__ = placeholder
+    gm.Guarded.__str__ = placeholder
+    rm.Rational.__str__ = placeholder
+    _note('__str__ of Fixed/Guarded/Rational -> placeholder text (count mode only); if the code compares or hashes such a '
+          'string the real __str__ is run symbolically and equality is decided on the numbers it prints')
 
 
 MARKERS = {}
